@@ -44,7 +44,7 @@ def replyToks : Reply → List String
   | .written n c sz => ["ok", toString n, toString c, toString sz]
   | .done => ["ok"]
   | .listing eof es => ["ok", b01 eof, if es.isEmpty then "-" else ",".intercalate (es.map entryTok)]
-  | .fsinfo wtmax => ["ok", toString Rtmax, toString Rtpref, toString Rtmult, toString wtmax, toString Wtpref,
+  | .fsinfo wtmax => ["ok", toString wtmax, toString Rtpref, toString Rtmult, toString wtmax, toString Wtpref,
       toString Wtmult, toString Dtpref, toString Maxfilesize, toString Properties]
   | .pathconf => ["ok", toString Linkmax, toString Name_max, b01 No_trunc, b01 Chown_restricted,
       b01 Case_insensitive, b01 Case_preserving]
